@@ -217,7 +217,8 @@ def parse_unit(path):
 
 
 # ------------------------------------------------------------------ extraction
-def run_xt(unit, workdir):
+def run_xt(unit, workdir, tolerant=False):
+    """tolerant: extraction errors are recorded per take (t.xt_error) instead of raised (dependency-only units, see reduce_unit)"""
     import threading
     takes_path = os.path.join(workdir, f"{unit['name']}.{os.getpid()}.{threading.get_ident()}.takes")
     with open(takes_path, "w") as f:
@@ -253,10 +254,19 @@ def run_xt(unit, workdir):
             cur.text = "\n".join(buf)
             intext = False
         elif line.startswith("@@ERROR "):
-            raise Undecided("extractor: lost anchor: " + line[8:])
+            if not tolerant:
+                raise Undecided("extractor: lost anchor: " + line[8:])
+            k = line[8:].split(" ", 1)[0]
+            if k in bykey:
+                bykey[k].xt_error = line[8:]
+            else:
+                raise Undecided("extractor: lost anchor: " + line[8:])
         elif intext:
             buf.append(line)
     for t in unit["takes"]:
+        if tolerant and (t.text is None or t.unsupported or getattr(t, "xt_error", None)):
+            t.xt_error = getattr(t, "xt_error", None) or (f"{t.key}: " + "; ".join(t.unsupported) if t.unsupported else f"extractor produced nothing for {t.key}")
+            continue
         if t.text is None:
             raise Undecided(f"extractor produced nothing for {t.key}")
         if t.unsupported:
@@ -670,11 +680,53 @@ def scan_assumptions(gen_lines, linemap):
     return items
 
 
-def verify_unit(unit_path, mode="normal", mutant=None, tier="quick", keep=True, seed=None, rlimit=None):
-    """returns dict with failures etc.; raises Undecided"""
+def reduce_unit(unit, needed):
+    """A unit that a property only DEPENDS on (its functions are stubbed elsewhere) is verified for exactly the functions the dependents
+    stub plus what those call inside the unit (transitively). Every other function take is emitted as an assumed declaration (or dropped
+    when it cannot even be extracted), so that an unrelated change in the same unit does not make the dependents undecided."""
+    fn_takes = [t for t in unit["takes"] if " fn " in (" " + t.selector)]
+    keep = {t.key for t in fn_takes if t.key in needed}
+    name_of = {}
+    for t in fn_takes:
+        m = re.search(r"rename=(\w+)", t.opts)
+        name_of[t.key] = m.group(1) if m else t.selector.split()[-1]
+    changed = True
+    while changed:
+        changed = False
+        for t in fn_takes:
+            if t.key in keep and getattr(t, "xt_error", None) is None and t.text:
+                body = t.text + "".join(t.sections.values())
+                for u in fn_takes:
+                    if u.key not in keep and re.search(r"\b" + re.escape(name_of[u.key]) + r"\s*(?:::<[^>]*>)?\s*\(", body):
+                        keep.add(u.key)
+                        changed = True
+    for t in fn_takes:
+        if t.key in keep:
+            if getattr(t, "xt_error", None):
+                raise Undecided("extractor: lost anchor: " + t.xt_error)
+        else:
+            t.not_needed = True
+    for t in unit["takes"]:
+        if t not in fn_takes and getattr(t, "xt_error", None):
+            raise Undecided("extractor: lost anchor: " + t.xt_error)
+    # drop takes that are neither needed nor extractable; mark the others as assumed declarations
+    dropped = {t.key for t in fn_takes if getattr(t, "not_needed", False) and getattr(t, "xt_error", None)}
+    unit["takes"] = [t for t in unit["takes"] if t.key not in dropped]
+    unit["chunks"] = [c for c in unit["chunks"] if not (c[0] == "take" and c[1].key in dropped)]
+    for t in unit["takes"]:
+        if getattr(t, "not_needed", False) and not t.stub:
+            t.stub = "(not needed by this property: assumed here, verified by the checks of the properties this unit serves)"
+    unit["mutants"] = [m for m in unit["mutants"] if m[1] in keep]
+    return keep
+
+
+def verify_unit(unit_path, mode="normal", mutant=None, tier="quick", keep=True, seed=None, rlimit=None, needed=None):
+    """returns dict with failures etc.; raises Undecided. needed: set of take keys (dependency-only unit, see reduce_unit)"""
     os.makedirs(BUILD, exist_ok=True)
     unit = parse_unit(unit_path)
-    run_xt(unit, BUILD)
+    run_xt(unit, BUILD, tolerant=needed is not None)
+    if needed is not None:
+        unit["reduced_to"] = sorted(reduce_unit(unit, needed))
     gen_lines, linemap = assemble(unit, mode, mutant)
     suffix = "" if mode == "normal" and mutant is None else ("__" + (mode if mutant is None else "mut_" + mutant[0]))
     gpath = os.path.join(BUILD, unit["name"] + suffix + ".rs")
@@ -724,9 +776,9 @@ def verify_unit(unit_path, mode="normal", mutant=None, tier="quick", keep=True, 
             "breakdown": fn_breakdown(res["json"]), "mode": mode, "isolated_retry": isolated}
 
 
-def check_canaries(unit_path):
+def check_canaries(unit_path, needed=None):
     """canary run: every canary assertion must FAIL. returns (n_canaries, list of canaries that verified)"""
-    r = verify_unit(unit_path, mode="canary")
+    r = verify_unit(unit_path, mode="canary", needed=needed)
     if r["tool_errors"]:
         raise Undecided("canary build of %s does not compile: %s" % (r["unit"]["name"], r["tool_errors"][0][0]))
     expected = set()
@@ -811,12 +863,16 @@ def units_for(prop):
     return out
 
 
-def check_stubs(unit_paths):
-    """every stub must be a non-stub take with the same key, selector and contract file in the named unit"""
+def check_stubs(unit_paths, kept_of=None):
+    """every stub must be a non-stub take with the same key, selector and contract file in the named unit
+    (stubs of functions that a dependency-only unit does not need for this property are not emitted as proof obligations: skipped)"""
     problems = []
     parsed = {os.path.splitext(os.path.basename(p))[0]: parse_unit(p) for p in unit_paths}
+    kept_by_name = {os.path.splitext(os.path.basename(p))[0]: k for p, k in (kept_of or {}).items()}
     for name, u in parsed.items():
         for t in u["takes"]:
+            if t.stub and name in kept_by_name and t.key not in kept_by_name[name]:
+                continue
             if t.stub:
                 v = parsed.get(t.stub)
                 ok = v and any((x.key == t.key and not x.stub and x.selector == t.selector and x.file == t.file
@@ -893,6 +949,54 @@ def decide(prop, tier, seed):
         print(f"UNDECIDED property={prop} reason=not claimed (see MANIFEST not_applicable)")
         return 2
     ups = units_for(prop)
+    # units this property only depends on (their functions are stubbed by the units that serve it): verified for the stubbed functions
+    # and what those call, nothing else (reduce_unit)
+    needed_of, kept_of = {}, {}
+    def serves(p):
+        m = re.search(r"//@\s*serves\s+(.*)", open(p).read(2000))
+        return bool(m and prop in m.group(1).split())
+    serving = [p for p in ups if serves(p)]
+    dep_only = [p for p in ups if not serves(p)]
+    # stub references of the takes that are actually verified, propagated level by level
+    stub_refs = []   # (unit name referenced, take key)
+    for q in serving:
+        for km in re.finditer(r"//@\s*take\s+(\w+)\s*\|[^\n]*stub=(\w+)\b", open(q).read()):
+            stub_refs.append((km.group(2), km.group(1)))
+    pending = list(dep_only)
+    progress = True
+    while pending and progress:
+        progress = False
+        for p in list(pending):
+            dep = os.path.splitext(os.path.basename(p))[0]
+            # a unit can be settled once every unit that may reference it is settled
+            refs_it = [q for q in pending if q != p and re.search(r"stub=" + re.escape(dep) + r"\b", open(q).read())]
+            if refs_it:
+                continue
+            keys = {k for (d, k) in stub_refs if d == dep}
+            imported = any(re.search(r"//@\s*import\s+" + re.escape(dep) + r"\b", open(q).read()) for q in ups if q != p)
+            needed_of[p] = keys
+            pending.remove(p)
+            progress = True
+            if keys:
+                try:
+                    u = parse_unit(p)
+                    os.makedirs(BUILD, exist_ok=True)
+                    run_xt(u, BUILD, tolerant=True)
+                    kept = reduce_unit(u, keys)
+                    kept_of[p] = kept
+                    for t in u["takes"]:
+                        if t.key in kept and t.stub and not t.stub.startswith("("):
+                            stub_refs.append((t.stub, t.key))
+                except Undecided:
+                    # decided again (and reported) by the verification job below
+                    for km in re.finditer(r"//@\s*take\s+(\w+)\s*\|[^\n]*stub=(\w+)\b", open(p).read()):
+                        stub_refs.append((km.group(2), km.group(1)))
+            elif not imported:
+                needed_of[p] = None   # nothing of this unit is needed by this property
+    for p in pending:   # cyclic references: fall back to the whole unit
+        needed_of.pop(p, None)
+    ups = [p for p in ups if not (p in needed_of and needed_of[p] is None)]
+    needed_of = {p: k for p, k in needed_of.items() if k is not None}
     if not ups and not pinfo.get("bounded"):
         print(f"UNDECIDED property={prop} reason=no units")
         return 2
@@ -903,9 +1007,9 @@ def decide(prop, tier, seed):
     def job(p, mode):
         try:
             if mode == "normal":
-                return ("normal", p, verify_unit(p, tier=tier))
+                return ("normal", p, verify_unit(p, tier=tier, needed=needed_of.get(p)))
             else:
-                return ("canary", p, check_canaries(p))
+                return ("canary", p, check_canaries(p, needed=needed_of.get(p)))
         except Undecided as e:
             return ("undecided", p, str(e))
 
@@ -922,6 +1026,8 @@ def decide(prop, tier, seed):
     if tier == "thorough" and not undecided:
         mjobs = []
         for p in ups:
+            if p in needed_of:
+                continue   # mutants of a dependency-only unit are run by the checks of the properties it serves
             u = parse_unit(p)
             for m in u["mutants"]:
                 mjobs.append((p, m))
@@ -945,7 +1051,7 @@ def decide(prop, tier, seed):
 
     # ---- classification
     reasons = [f"{os.path.basename(p)}: {r}" for p, r in undecided]
-    reasons += check_stubs(ups)
+    reasons += check_stubs(ups, kept_of)
     for r in results:
         if r["tool_errors"]:
             reasons.append(f"{r['unit']['name']}: verus front-end error: {r['tool_errors'][0][0]}")
